@@ -119,6 +119,12 @@ CHECKS["C15"] = dict(
     text="Both augmentation families and StateAugmentation are enumerated over counts {2,4,8}, batch sizes 1-3 and all single-deviation answers of the angle draw; every complete TSP/CVRP action sequence is costed on every copy; evaluate_policy's reported reward must equal the oracle objective of the returned actions on the original instance, equal the instance's solo best-of-k under the same RNG answers and never be worse than single greedy when the identity copy is a candidate.",
     ref="DESIGN.md section 4 C15",
 )
+CHECKS["C16"] = dict(
+    engine="E4 OpSeqExplorer + E5 GridEnumerator",
+    technique="complete grid over algorithm x baseline x reward scale x batch size x (n_aug, n_start) factors, each driven through successive training steps on the real model classes with rollouts fixed by the RNG seam; loss value and autograd gradients compared with an independently rebuilt reference surrogate",
+    text="REINFORCE with every baseline and advantage scaling, A2C, POMO, SymNCO (incl. n_aug != n_start) and PPO are stepped on small alphabet batches; the library loss and its gradient w.r.t. every policy / critic parameter must equal the reference surrogate rebuilt from reward, log-likelihood and an independent baseline value; rewards and baselines must carry no gradient; warm-up weights and EMA states are tracked across steps.",
+    ref="DESIGN.md section 4 C16",
+)
 
 NOT_YET = {}
 
